@@ -97,7 +97,7 @@ def se_unit(name, file, qualname, cls, setup, post, loop_specs=None, inline=(), 
                 res["new_abstraction"] = new
         obs = []
         seen = {}
-        tmo = TIMEOUT_MS.get(tier, 10000)
+        tmo = TIMEOUT_MS.get(tier, 10000) * (3 if os.environ.get("VERIF_LONG") else 1)
         vac = None
         n_unknown = 0
         vac_seen = set()
